@@ -129,6 +129,18 @@ pub fn run(cfg: &Cfg) -> i32 {
                 })?;
             }
         }
+        // a second pass over this shard's squares in the opposite order and with the piece kinds
+        // swapped round (bishop before rook): the lookups are pure functions, so asking again in
+        // another order must give the same answers
+        for a in (0..64u8).rev() {
+            if a as usize % cfg.shards != shard {
+                continue;
+            }
+            for rook in [false, true] {
+                engine::run_one(ctx, |ctx| check_square(ctx, a, rook, &[0u64, !0u64, 0x55AA_55AA_55AA_55AA]))?;
+            }
+        }
+        ctx.class("pass:second-pass-in-reverse-order");
         ctx.sample(|| json!({"build": BUILD, "enumerated": "every subset of each square's rook rays (2^14 per square) and bishop rays (2^7..2^13), each with all-empty, all-full and generated fillings of the other squares"}));
         Ok(())
     });
@@ -141,7 +153,7 @@ pub fn run(cfg: &Cfg) -> i32 {
     let rc = engine::finish(
         report,
         EvidenceSpec {
-            rule: format!("cases = (square, rook|bishop, subset of that square's rays, filling of the irrelevant squares): every subset of every square's rays is enumerated (1,048,576 rook + 71,168 bishop base occupancies) and combined with the empty, the full and {} generated fillings of the squares off the rays; get_rook_moves / get_bishop_moves (and, in the +bmi2 build, get_*_moves_bmi) are compared with square-by-square ray walking (get_*_rays are compared with the empty-board rays too, but only counted: the statement is about the attack lookups). evaluations = lookups compared in this build (the other build's count is under other_build). Non-trivial: every base occupancy counts (distinct = distinct (square, piece, ray subset)).", cfg.tier.pick(510, 8190)),
+            rule: format!("cases = (square, rook|bishop, subset of that square's rays, filling of the irrelevant squares): every subset of every square's rays is enumerated (1,048,576 rook + 71,168 bishop base occupancies) and combined with the empty, the full and {} generated fillings of the squares off the rays; get_rook_moves / get_bishop_moves (and, in the +bmi2 build, get_*_moves_bmi) are compared with square-by-square ray walking; every square is asked again afterwards in reverse order (get_*_rays are compared with the empty-board rays too, but only counted: the statement is about the attack lookups). evaluations = lookups compared in this build (the other build's count is under other_build). Non-trivial: every base occupancy counts (distinct = distinct (square, piece, ray subset)).", cfg.tier.pick(510, 8190)),
             assumptions: vec!["ray walking oracle from the definition".into(), "the machine supports BMI2 (checked by ./check before running the +bmi2 build)".into()],
             trusted_base: vec!["harness/src/props/c15.rs walk()".into(), "proptest 1.11 (noise)".into()],
             exhaustive: Some(true),
